@@ -118,10 +118,14 @@ class BaseCurve(Intface_BaseCurve):
             vecta, vectb = tuple(self.knotvector), tuple(other.knotvector)
             vectmul = heavy.MathOperations.knotvector_mul(vecta, vectb)
             matrix3d = heavy.MathOperations.mul_spline_curve(vecta, vectb)
-            ctrlpoints = np.tensordot(
-                np.moveaxis(self.ctrlpoints, 0, -1), matrix3d, axes=1
-            )
-            ctrlpoints = ctrlpoints @ other.ctrlpoints
+            matrix3d = np.array(matrix3d)
+            ctrlpoints = []
+            for j in range(matrix3d.shape[1]):
+                point = 0 * (self.ctrlpoints[0] * other.ctrlpoints[0])
+                for i, pointa in enumerate(self.ctrlpoints):
+                    for k, pointb in enumerate(other.ctrlpoints):
+                        point = point + matrix3d[i, j, k] * (pointa * pointb)
+                ctrlpoints.append(point)
             curve = Curve(vectmul, ctrlpoints)
             return curve
         numa, dena = self.fraction()
